@@ -92,6 +92,10 @@ pub struct StoreState {
     pub fault_overlapped: u64,
     pub queries: u64,
     pub query_hits: u64,
+    /// the current session is a dry run: the client behaves like a dry-run remote client — uploads are accepted and
+    /// nothing is stored or recorded
+    pub dry: bool,
+    pub dry_calls: u64,
 }
 
 impl StoreState {
@@ -165,6 +169,13 @@ impl UploadClient for SimStore {
         data: Vec<u8>,
         chunk_and_boundaries: Vec<(MerkleHash, u32)>,
     ) -> CResult<usize> {
+        {
+            let mut st = self.st.lock().unwrap();
+            if st.dry {
+                st.dry_calls += 1;
+                return Ok(data.len());
+            }
+        }
         let h = h_of(hash);
         let rec_idx;
         {
@@ -266,6 +277,13 @@ impl VerifRegistrationClient for SimStore {
         shard_data: &[u8],
         salt: &[u8; 32],
     ) -> CResult<bool> {
+        {
+            let mut st = self.st.lock().unwrap();
+            if st.dry {
+                st.dry_calls += 1;
+                return Ok(true);
+            }
+        }
         let rec_idx;
         {
             let mut st = self.st.lock().unwrap();
